@@ -409,9 +409,16 @@ def r1310(ck, prog):
                           "ancestors that have not been looked at yet are never examined, so a subclass value is reported as "
                           "incompatible with its base class" % b.where(u))
     rec = [i for i, t in b.calls() if Body.callee(t) == b.path]
+    # iterator form: `parents.iter().any(|p| .. record(p).is_subclass_of(..))` - std's any() looks at every element until
+    # the closure answers true; the recursion then sits in the closure
+    for cb_ in prog.closures_of(b.path):
+        if any(Body.callee(t) == b.path for _, t in cb_.calls()) and \
+                any(re.search(r"Iterator>?::(any|find|find_map|position|all)$", Body.callee(t) or "") for _, t in b.calls()):
+            rec.append(-1)
     ck.ob("R13.10", "walks-ancestors", bool(rec) or n > 0, "the function recurses into / iterates over the parents",
           msg="Record::is_subclass_of neither recurses nor loops over the parents", nontrivial=False)
-    ck.floor("R13.10", "loop exits of is_subclass_of", n, 2)
+    if not rec or n:
+        ck.floor("R13.10", "loop exits of is_subclass_of", n, 2)
 
 
 def r138(ck, prog):
